@@ -308,6 +308,24 @@ fn request_many(dir: &std::path::Path, argv: &[String], argv_supp: &[String], at
     None
 }
 
+/// The two files of a many-lints case with its attribute suppressions written in (command-line suppressions are not part
+/// of the text) - also used by C15, which compiles them in every order.
+pub fn many_texts(case: &Value) -> Vec<String> {
+    let supp = case["supp"].as_object().cloned().unwrap_or_default();
+    let with = |slot: &str| -> String {
+        let a: Vec<String> = supp.get(slot).map(strs).unwrap_or_default();
+        if a.is_empty() {
+            String::new()
+        } else if slot == "file" || slot == "tfile" {
+            format!("[[allow({})]] ", a.join(", "))
+        } else {
+            format!("[allow({})] ", a.join(", "))
+        }
+    };
+    let present: Vec<bool> = case["present"].as_array().cloned().unwrap_or_default().iter().map(|x| x == true).collect();
+    (0..2).map(|f| many_template(f, &with, &present)).collect()
+}
+
 impl Lints {
     fn run_many(&mut self, case: &Value) -> Outcome {
         self.counter += 1;
